@@ -312,6 +312,9 @@ def run_case(case):
         if (bits[w] | A["obs"]["overflow"][w]) & meta.ITER_BITS:
           rec.count("ungated_iteration_limit")  # the property only speaks about steps without any overflow bit
           continue
+        if meta.diverged(A["obs"], w, B["obs"], w):
+          rec.count("ungated_diverged_world")
+          continue
         # robust form: no capacity bit in this world => result must equal the ample run
         tmp = core.Rec(case)
         c1 = meta.compare_obs(tmp, "", A["obs"], B["obs"], w, w)
